@@ -28,7 +28,7 @@ LOGGER_RECEIVERS = {'self._logger', 'self.logger', 'logger', 'logging', 'LOGGER'
 # receivers with a method named like a level that are not loggers (none today; listed explicitly when one appears)
 NOT_LOGGERS = set()
 
-SAFE = ('STemplate', 'SUid', 'SOpName', 'STypeName', 'SEnumName', 'SAttrName', 'SNum', 'STime', 'SVersion',
+SAFE = ('SWire', 'STemplate', 'SUid', 'SOpName', 'STypeName', 'SEnumName', 'SAttrName', 'SNum', 'STime', 'SVersion',
         'SClientText', 'SServerMsg')
 
 # ---------------------------------------------------------------------------------------------------------
@@ -129,13 +129,20 @@ WL = {
     },
     PFA: {'key.key_format_type': 'SEnumName', 'format_type': 'SEnumName'},
     PRI: {
-        'extra': 'SNum', 'min_bytes': 'SNum', 'num_bytes': 'SNum', 'typ': 'SNum', 'tag': 'SNum', 'pad': 'SNum',
-        'self.tag.value': 'SNum', 'self.type.value': 'SNum', 'self.LENGTH': 'SNum', 'self.length': 'SNum',
+        # SWire = a field of the request being decoded (tag 3 bytes, type 1, length 4, padding 1-4, Boolean 8),
+        # echoed as a number: request *content* (known finding C20-decoder-field-echo)
+        ('Base.read_tag', 'hex(tag)'): 'SWire', ('Base.read_type', 'typ'): 'SWire',
+        ('Integer.read_value', 'self.length'): 'SWire', ('Integer.read_value', 'pad'): 'SWire',
+        ('LongInteger.read', 'self.length'): 'SWire', ('BigInteger.read', 'self.length'): 'SWire',
+        ('TextString.read_value', 'pad'): 'SWire', ('ByteString.read_value', 'pad'): 'SWire',
+        ('Boolean.read_value', 'value'): 'SWire',
+        'extra': 'SNum', 'min_bytes': 'SNum', 'num_bytes': 'SNum',
+        'hex(self.tag.value)': 'SNum', 'self.type.value': 'SNum', 'self.LENGTH': 'SNum',
+        ('Base.write_length', 'self.length'): 'SNum',
         'self.LENGTH_SIZE': 'SNum', 'LongInteger.LENGTH': 'SNum', 'Enumeration.LENGTH': 'SNum',
         'Interval.LENGTH': 'SNum',
         'self.enum': 'STypeName',
         ('Enumeration.validate', 'self.value'): 'SEnumName',   # the (wrongly typed) enumeration member
-        ('Boolean.read_value', 'value'): 'SNum',               # the 8-byte integer read for a Boolean
     },
     COB: {
         'enum_name': 'SAttrName', 'tag.name': 'SEnumName', 'i + 1': 'SNum',
